@@ -5,6 +5,7 @@ package main
 
 import (
 	"crypto/sha1"
+	"flag"
 	"encoding/json"
 	"fmt"
 	"os"
@@ -475,6 +476,44 @@ func (r *report) evidence(validated, valMismatch, unconfirmed int, unconfMsgs []
 }
 
 func cmdReplay(args []string) int {
-	fmt.Fprintln(os.Stderr, "replay: use `check <ID> --replay <file>` wrapper")
-	return 2
+	fs := flag.NewFlagSet("replay", flag.ExitOnError)
+	file := fs.String("file", "", "replay file written by a check")
+	repo := fs.String("repo", "/repo", "repository working tree")
+	verif := fs.String("verif", "/verif", "verification directory")
+	fs.Parse(args)
+	b, err := os.ReadFile(*file)
+	if err != nil {
+		fmt.Fprintln(os.Stderr, err)
+		return 2
+	}
+	var rf replayFile
+	if err := json.Unmarshal(b, &rf); err != nil {
+		fmt.Fprintln(os.Stderr, err)
+		return 2
+	}
+	harnessDir := filepath.Join(*verif, "harness")
+	overlay, realOf, err := buildOverlay(*repo, harnessDir, []string{rf.Rel})
+	if err != nil {
+		fmt.Fprintln(os.Stderr, "overlay:", err)
+		return 2
+	}
+	ld, err := loadProgram(*repo, overlay, realOf, []string{rf.Rel})
+	if err != nil {
+		fmt.Fprintln(os.Stderr, "load:", err)
+		return 2
+	}
+	r := &report{ID: rf.Property, verif: *verif, repo: *repo, ld: ld}
+	nr := &nativeRunner{rep: r}
+	defer nr.close()
+	res, err := nr.run(rf.Rel, []nativeCase{{Harness: rf.Harness, Tier: rf.Tier, Draws: rf.Draws}})
+	if err != nil {
+		fmt.Fprintln(os.Stderr, err)
+		return 2
+	}
+	fmt.Printf("replay %s %s: native status=%s label=%q msg=%q obs=%v\n", rf.Property, rf.Harness, res[0].Status, res[0].Label, res[0].Msg, res[0].Obs)
+	if res[0].Status == "assert" || res[0].Status == "panic" {
+		fmt.Printf("VIOLATION property=%s replay=%s\n", rf.Property, *file)
+		return 1
+	}
+	return 0
 }
